@@ -165,7 +165,7 @@ def r03_3(ctx):
                 out = "content+data"
             elif ret == ("param", 2):
                 out = "data"
-            elif ret == ("call", "std::vec::Vec::new", ()):
+            elif ret in (("call", "std::vec::Vec::new", ()), ("default",)):
                 out = "empty"
             else:
                 out = show(ret, f)
@@ -187,7 +187,7 @@ def r03_3(ctx):
             if p.end[0] == "ret":
                 exv = dict(p.conds).get(ex)
                 wrote = tuple(e[2] for e in p.events if e[0] == "write" and e[1] == ex)
-                rows[exv] = ("content" if p.end[1] == content else "empty" if p.end[1] == ("call", "std::vec::Vec::new", ()) else show(p.end[1], g), wrote)
+                rows[exv] = ("content" if p.end[1] == content else "empty" if p.end[1] in (("call", "std::vec::Vec::new", ()), ("default",)) else show(p.end[1], g), wrote)
         r.ob("text:end", rows == {0: ("content", (("const", True),)), 1: ("empty", ())}, g.site, "end(): content iff not emitted yet, and marks it emitted: %s" % rows)
         # `executed` is written only there and starts false
         writers = sorted(h.key for h in F.fn_list if not h.derived and (TEXT, "executed") in effects(h).writes)
